@@ -5,7 +5,7 @@
    _randomizedSelect, numpy.random.shuffle outcomes). *)
 From Coq Require Import List ZArith QArith Bool Permutation Lia.
 From DV Require Import Base.PyList Base.C07_Num Model.C07_Spea2 Model.C07_Nsga3 Model.C07_RefPoints
-                       Proofs.C07_Spea2 Proofs.C07_Nsga3 Proofs.C07_RefPoints.
+                       Proofs.C07_Spea2 Proofs.C07_Nsga3 Proofs.C07_RefPoints Proofs.C07_Select.
 Import ListNotations.
 Local Open Scope nat_scope.
 
@@ -134,6 +134,17 @@ Theorem C07_nsga3_front_priority : forall (pop : list nat) (rank : nat -> nat)
 Proof. intros. eapply (nsga3_front_priority q_ltb 0%Q pop rank); eauto. Qed.
 Print Assumptions C07_nsga3_front_priority.
 
+(* the whole selection with the model's own association (exact instance): nothing is assumed
+   about the normalisation inputs best / intercepts / dist *)
+Theorem C07_nsga3_end_to_end : forall (eps : Q) fits fronts k refs best icpt dist draws,
+  refs <> [] -> fronts <> [] -> NoDup (concat fronts) -> length fits = length (concat fronts) ->
+  length (concat (removelast fronts)) < k <= length (concat fronts) ->
+  let o := snd (nsga3 q_ops eps fits fronts k refs best icpt dist draws) in
+  o_ok o = true /\ length (o_chosen o) = k /\ NoDup (o_chosen o) /\
+  incl (o_chosen o) (concat fronts) /\ incl (concat (removelast fronts)) (o_chosen o).
+Proof. exact nsga3_spec. Qed.
+Print Assumptions C07_nsga3_end_to_end.
+
 (* association: the first reference direction of minimal distance ... *)
 Theorem C07_associate_argmin : forall (refs : list (list Q)) (fn : list Q), refs <> [] ->
   let j := associate_one q_ops refs fn in
@@ -152,6 +163,33 @@ Theorem C07_perp_d2_is_line_distance : forall (fn r : list Q) (t : Q),
   (perp_d2 q_ops fn r == line_d2 (sdot fn r / sdot r r) fn r)%Q.
 Proof. intros fn r t L H. split; [now apply perp_d2_minimal|apply perp_d2_line]. Qed.
 Print Assumptions C07_perp_d2_is_line_distance.
+
+(* normalisation inputs that ARE modelled (exact on integer-valued fitnesses): the remembered
+   best point is the coordinatewise minimum of everything seen (lower bound, attained) ... *)
+Theorem C07_update_best_spec : forall (prev : option (list Z)) (fits : list (list Z)) (M c : nat),
+  fits <> [] -> (forall row, In row fits -> length row = M) ->
+  (match prev with Some b => length b = M | None => True end) -> c < M ->
+  let rows := fits ++ match prev with Some b => [b] | None => [] end in
+  let v := nth c (update_best prev fits) 0%Z in
+  (forall row, In row rows -> (v <= nth c row 0)%Z) /\ (exists row, In row rows /\ v = nth c row 0%Z).
+Proof. exact update_best_spec. Qed.
+Print Assumptions C07_update_best_spec.
+
+(* ... and the i-th extreme point is an input row minimising the i-th achievement scalarising function *)
+Theorem C07_find_extreme_points_spec : forall fits best prev i,
+  let rows := fits ++ match prev with Some e => e | None => [] end in
+  rows <> [] -> i < length best ->
+  let e := nth i (find_extreme_points fits best prev) [] in
+  In e rows /\ forall row, In row rows -> (asf_val best i e <= asf_val best i row)%Z.
+Proof. exact find_extreme_points_spec. Qed.
+Print Assumptions C07_find_extreme_points_spec.
+
+(* _randomizedSelect = element of rank i for every in-range pivot sequence.
+   BOUNDED: arrays of length 1..5 over {0,1,2}, every rank, every draw sequence (by evaluation);
+   not used by any other theorem. *)
+Theorem C07_rand_select_kth_bounded : forallb select_ok_on [1; 2; 3; 4; 5] = true.
+Proof. exact rand_select_kth_bounded. Qed.
+Print Assumptions C07_rand_select_kth_bounded.
 
 (* ================================================================== *)
 (* reference points (DESIGN A8) *)
@@ -183,6 +221,12 @@ Theorem C07_ref_points_scaled_rows : forall nobj p s row, 1 <= nobj -> 1 <= p ->
   length row = nobj /\ Forall (fun x => (0 <= x)%Q) row /\ (qsum row == 1)%Q.
 Proof. exact ref_points_scaled_rows. Qed.
 Print Assumptions C07_ref_points_scaled_rows.
+
+Theorem C07_ref_points_scaled_distinct : forall nobj p s i j, 1 <= p -> ~ (s == 0)%Q ->
+  let pts := ref_points_q nobj p (Some s) in
+  i < length pts -> j < length pts -> i <> j -> ~ Forall2 Qeq (nth i pts []) (nth j pts []).
+Proof. exact ref_points_scaled_distinct. Qed.
+Print Assumptions C07_ref_points_scaled_distinct.
 
 (* ================================================================== *)
 (* non-vacuity: the hypotheses are satisfiable and the branches are reached *)
